@@ -29,6 +29,21 @@ KNOWN = [
         "what_fails": "`apparently facing H from P` with a non-global parentOrientation (e.g. parent yaw 30 deg) gives global heading 30 deg + H: the helper "
         "computes the yaw in the global frame although yaw is relative to parentOrientation (F28); a repair needs a decision for 3-D parents",
     },
+    {
+        "property": "C14",
+        "rule": "C14.rebind",
+        "key": "C14.rebind|src/scenic/core/requirements.py|PendingRequirement.compile.closure|requirement closure rebinding not restored",
+        "what_fails": "after a scene is generated, the program's module namespace / closure cells still hold the sampled values bound while the last requirement "
+        "was evaluated (a scene whose soft requirement was inactive gets behaviours seeing the previous sample's value) (F26); restoring the "
+        "bindings changes what later statements of the same module observe, so it is recorded rather than repaired",
+    },
+    {
+        "property": "C18",
+        "rule": "C18.deterministic",
+        "key": "C18.deterministic|src/scenic/core/object_types.py|Point.sampleGiven|Point.sampleGiven -> PositionMutator.appliedTo draws random.gauss",
+        "what_fails": "a scene with `mutate` encodes only the dependencies of each object; decoding re-runs Point.sampleGiven, which draws fresh Gaussian "
+        "mutation noise, so the decoded scene differs from the encoded one (F20); repairing it needs a format change (storing the noise)",
+    },
 ]
 
 # subject prefix (after 'fix: ') -> (properties, rule, what failed)
@@ -66,6 +81,15 @@ FIXED = [
     ("non-temporal `implies` could not be evaluated at run time", ["C11"], "C11.classes", "`require A implies B` executed in a compose block raised RuntimeError (F07)"),
     ("DynamicMonitorRequirement.__str__ read an attribute that was never set", ["C11"], "C11.classes", "str() of an unnamed dynamic temporal requirement raised AttributeError `ty` (F46)"),
     ("temporal requirements declared inside a compose block were never monitored", ["C11"], "C11.monitor", "`require always C` inside a sub-scenario's compose block was silently ignored; at top level it crashed with AttributeError (F47)"),
+    ("inInitialScenario was never reset", ["C14"], "C14.globals", "compiling the same program twice in one process gave different scenarios (F23)"),
+    ("cleanup of a failed simulation read self.agents", ["C14"], "C14.cleanup", "a simulator whose setup() raised before super().setup() left currentSimulation set (AttributeError in finally) (F33)"),
+    ("an exception while cleaning up a simulation skipped endSimulation", ["C14"], "C14.cleanup", "an exception in destroy()/behaviour._stop() during cleanup left a simulation 'in progress' (F48)"),
+    ("a second override of the same object dropped its undo record", ["C14"], "C14.override", "after two `override` statements on one object, properties from the second were never reverted (F03)"),
+    ("requirement dependencies were gathered in sets", ["C15"], "C15.order", "requirement-only random values were sampled in a PYTHONHASHSEED/address dependent order (F22)"),
+    ("point visibility rotated the absolute target position", ["C17"], "C17.frames", "a viewer at (10,0,0) facing west did not see (0,0,0), which its visibleRegion contains (F17)"),
+    ("truncated integers and byte strings decoded silently", ["C18"], "C18.failclosed", "a 2-byte integer cut to 1 byte decoded to a different value (1567 -> 31) (F05)"),
+    ("corrupted scene data escaped from readScene", ["C18"], "C18.errors", "a corrupted option index escaped as IndexError (F06)"),
+    ("replay divergence of scalar properties was only detected in one direction", ["C18"], "C18.divergence", "a replayed value 1 below the recording was 'not diverged' at tolerance 0.5 (F04)"),
 ]
 
 
